@@ -472,3 +472,106 @@ pub fn ref_lookup_index(positions: &[(u32, u32)], q: (u32, u32)) -> Option<usize
     }
     best.map(|b| b.0)
 }
+
+// ---------------------------------------------------------------------------------------
+// iterator protocol: however an iterator is driven, it yields the same sequence
+// ---------------------------------------------------------------------------------------
+
+/// `expected` is what `make().collect()` must give. Every other way of driving the iterator
+/// (`nth`, `skip`, `step_by`, `count`, `last`, mixed `next`/`nth` walks) and `size_hint` must be
+/// consistent with that sequence — `Iterator`'s provided methods guarantee it unless an
+/// override disagrees with `next`. Bounded: at most `expected.len() + 2` items are ever pulled.
+pub fn iter_conformance<T, I>(what: &str, make: impl Fn() -> I, expected: &[T]) -> Result<(), String>
+where
+    T: PartialEq + std::fmt::Debug + Clone,
+    I: Iterator<Item = T>,
+{
+    let n = expected.len();
+    let bound = n + 2;
+    let r = guard(|| -> Result<(), String> {
+        let all: Vec<T> = make().take(bound).collect();
+        if all != expected {
+            return Err(format!("{what}: yields {all:?}, expected {expected:?}"));
+        }
+        let (lo, hi) = make().size_hint();
+        if lo > n || hi.map(|h| h < n).unwrap_or(false) {
+            return Err(format!("{what}: size_hint() = ({lo}, {hi:?}) but the iterator yields {n} item(s)"));
+        }
+        let ks: Vec<usize> = if n <= 40 { (0..=n + 1).collect() } else { vec![0, 1, 2, 3, 15, 16, 17, 31, 32, 33, n / 2, n - 2, n - 1, n, n + 1] };
+        for &k in &ks {
+            let mut it = make();
+            let got = it.nth(k);
+            if got.as_ref() != expected.get(k) {
+                return Err(format!("{what}: nth({k}) = {got:?}, the {k}-th item of the sequence is {:?}", expected.get(k)));
+            }
+            if k < n {
+                let rest: Vec<T> = it.take(bound).collect();
+                if rest != expected[k + 1..] {
+                    return Err(format!("{what}: after nth({k}) the iterator continues with {rest:?}, expected {:?}", &expected[k + 1..]));
+                }
+                let (lo, hi) = {
+                    let mut it = make();
+                    it.nth(k);
+                    it.size_hint()
+                };
+                let left = n - k - 1;
+                if lo > left || hi.map(|h| h < left).unwrap_or(false) {
+                    return Err(format!("{what}: size_hint() after nth({k}) = ({lo}, {hi:?}) with {left} item(s) left"));
+                }
+            }
+            let skipped: Vec<T> = make().skip(k).take(bound).collect();
+            if skipped != expected[k.min(n)..] {
+                return Err(format!("{what}: skip({k}) yields {skipped:?}, expected {:?}", &expected[k.min(n)..]));
+            }
+        }
+        for step in [2usize, 3] {
+            let got: Vec<T> = make().step_by(step).take(bound).collect();
+            let want: Vec<T> = expected.iter().step_by(step).cloned().collect();
+            if got != want {
+                return Err(format!("{what}: step_by({step}) yields {got:?}, expected {want:?}"));
+            }
+        }
+        let c = make().take(bound).count();
+        if c != n {
+            return Err(format!("{what}: count() = {c}, the sequence has {n} item(s)"));
+        }
+        if n <= 4096 {
+            let c = make().count();
+            if c != n {
+                return Err(format!("{what}: count() = {c}, the sequence has {n} item(s)"));
+            }
+            let l = make().last();
+            if l.as_ref() != expected.last() {
+                return Err(format!("{what}: last() = {l:?}, expected {:?}", expected.last()));
+            }
+        }
+        // mixed walk: next, nth(1), next, nth(2), nth(0), ... against a cursor on the sequence
+        let mut it = make();
+        let mut cur = 0usize;
+        for (round, skip) in [None, Some(1usize), None, Some(2), Some(0), None, Some(1), Some(3), None].into_iter().cycle().enumerate() {
+            if cur > n || round > 4 * n + 9 {
+                break;
+            }
+            let (got, want) = match skip {
+                None => (it.next(), expected.get(cur)),
+                Some(k) => {
+                    let g = it.nth(k);
+                    cur += k;
+                    (g, expected.get(cur))
+                }
+            };
+            if got.as_ref() != want {
+                return Err(format!("{what}: mixed next()/nth() walk: step {round} ({skip:?}) gives {got:?}, the sequence has {want:?} at index {cur}"));
+            }
+            if got.is_none() {
+                break;
+            }
+            cur += 1;
+        }
+        Ok(())
+    });
+    match r {
+        Ok(r) => r,
+        Err(p) => Err(format!("{what}: {p}")),
+    }
+}
